@@ -6,7 +6,7 @@
    hash function. Tree classes, builders and pack/unpack: correspondence + direct oracle (see evidence). *)
 From Coq Require Import ZArith List Bool.
 From Coq.Strings Require Import Byte.
-From TS Require Import Bytes State Prog Ops Interp NopSpec StackLemmas MerkleSpec.
+From TS Require Import Bytes State Prog Ops Interp NopSpec StackLemmas MerkleSpec TapeLemmas Builders MerkleTree MerkleTreeProofs AuthSpec.
 Import ListNotations.
 Local Open Scope nat_scope.
 
@@ -24,4 +24,50 @@ Theorem C04_merkleval_binding :
     else Raised ScriptExecutionError (adv fr 32) (with_stack st (script :: rest)).
 Proof. exact merkleval_binding. Qed.
 
+(* ---------------- the tree classes (model/MerkleTree.v; tied to tapescript.tools by the MT correspondence) ----------------
+   For every hash function H answered by the oracle with 32-byte values, every tree, every path p: *)
+
+(* completeness: the unlocking script of the node at path p followed by the root lock runs EXACTLY the bytes of that
+   node, as a fresh tape object in the state [descend] (stack = what lay under the witness, cache/log untouched,
+   call count = depth), and the verdict is the verdict of that run *)
+Theorem C04_committed_branch_runs :
+  forall orc cfg H, (forall b, orc PSha256 [b] = OOk [H b]) -> (forall b, List.length (H b) = 32) ->
+  forall p l r u w vals f,
+  subtree (Node l r) p = Some u -> p <> [] -> unlock H (Node l r) p = Some w ->
+  no_eval_ban cfg -> (Z.of_nat (List.length p) <= c_limit cfg)%Z ->
+  fits cfg (tbytes H u) -> 33 <= c_max_item_size cfg -> 2 * List.length p + 2 <= c_max_items cfg ->
+  let st2 := lock_state cfg w vals (wstack H (Node l r) p) (lock H l r) in
+  run_auth_scripts orc cfg (2 * List.length p + S f) [w; lock H l r] vals =
+    auth_finish
+      (lock_result cfg 1 (List.length p)
+         (run_tape orc cfg (S (List.length p + f)) (fst (descend H (Node l r) p 1 st2)) 0
+                   (snd (descend H (Node l r) p 1 st2)))).
+Proof. exact merkle_auth. Qed.
+
+(* binding for a node's lock: unless the top pair hashes to the root, the lock raises in its own frame, no tape
+   object is created, cache / log / definitions are those of the start *)
+Theorem C04_uncommitted_pair_never_starts :
+  forall orc cfg H, (forall b, orc PSha256 [b] = OOk [H b]) -> (forall b, List.length (H b) = 32) ->
+  forall f tid st l r script sib rest,
+  tdata st tid = lock H l r -> st_stack st = script :: sib :: rest ->
+  fits cfg script -> fits cfg sib -> 32 <= c_max_item_size cfg -> List.length rest + 4 <= c_max_items cfg ->
+  xor_bytes (H sib) (H (H script)) <> root H l r ->
+  run_tape orc cfg (S f) tid 0 st =
+    Raised ScriptExecutionError {| fr_tid := tid; fr_ptr := 33 |} (with_stack st (script :: rest)).
+Proof. exact merkle_binding_tree. Qed.
+
+(* serialisation: unpack (pack t) = t whenever pack does not raise (every packed subtree < 65536 bytes) *)
+Theorem C04_pack_unpack :
+  forall l r, packable (Node l r) = true -> unpack (pack (Node l r)) = Some (Node l r).
+Proof. exact pack_unpack. Qed.
+
+(* non-vacuity: a concrete hash, configuration and depth-2 tree for which the theorem gives verdict True *)
+Example C04_committed_branch_demo : exists w st,
+  unlock Demo.H (Node Demo.l Demo.r) [L; L] = Some w /\
+  run_auth_scripts Demo.orc Demo.cfg (2 * 2 + S 3) [w; lock Demo.H Demo.l Demo.r] [] = AuthVerdict true st.
+Proof. exact Demo.demo_true. Qed.
+
+Print Assumptions C04_committed_branch_runs.
+Print Assumptions C04_uncommitted_pair_never_starts.
+Print Assumptions C04_pack_unpack.
 Print Assumptions C04_merkleval_binding.
